@@ -1211,8 +1211,10 @@ def check_property(prop, tier, seed):
         assumptions=["model written by hand, tied to the code by the correspondence check on every run", "x86-64, little-endian, 64-bit usize"],
         wall_s=round(time.time() - t0, 2), violations=len(violations),
     )
-    os.makedirs(os.path.join(VERIF, "evidence"), exist_ok=True)
-    json.dump(ev, open(os.path.join(VERIF, "evidence", prop + ".json"), "w"), indent=1)
+    # evidence/ describes /repo only; a run against another tree (seeded changes, reverted fixes) records elsewhere
+    evdir = os.path.join(VERIF, "evidence") if os.path.realpath(REPO) == "/repo" else os.path.join(VERIF, ".build", "evidence-other")
+    os.makedirs(evdir, exist_ok=True)
+    json.dump(ev, open(os.path.join(evdir, prop + ".json"), "w"), indent=1)
     log(f"[{prop}] obligations {n_dis}/{n_obl}, cases {stats['cases']}, mismatches {stats['mismatches']}, oracle failures {stats['oracle_failures']}, {ev['wall_s']} s")
     return 1 if violations else 0
 
